@@ -65,5 +65,28 @@ theorem cmodels_ratio (s : Store) (w : WF s) (fuel t : Nat) (ht : t < s.nodes.si
   rw [Nat.mul_comm (2 ^ vs.length) (2 ^ (countF s fuel t).2.2)] at e2
   omega
 
+/-- a diagram's function looks at the listed variables only -/
+theorem eval_agree_on_deps (s : Store) (h : TableWF s.nodes) : ∀ (t : Nat), t < s.nodes.size →
+    ∀ σ σ' : Asg, (∀ x ∈ depsF s (t+1) t, σ x = σ' x) → eval s t σ = eval s t σ' := by
+  intro t
+  induction t using Nat.strongRecOn with
+  | _ t ih =>
+    intro ht σ σ' hag
+    by_cases h2 : t < 2
+    · have h01 : t = 0 ∨ t = 1 := by omega
+      rcases h01 with h0 | h0 <;> subst h0 <;> simp [eval_zero, eval_one]
+    obtain ⟨n, hn⟩ := get_of_lt ht
+    have ⟨_, hlo, hhi, _, _, _⟩ := h.inner t n (by omega) hn
+    have hd : depsF s (t+1) t = n.var :: (depsF s (n.lo+1) n.lo ++ depsF s (n.hi+1) n.hi) := by
+      conv => lhs; unfold depsF
+      rw [if_neg h2]
+      simp only [hn]
+      rw [depsF_fuel s h n.lo t hlo, depsF_fuel s h n.hi t hhi]
+    rw [hd] at hag
+    rw [Tab.eval_node s h t n (by omega) hn, Tab.eval_node s h t n (by omega) hn,
+        hag n.var (List.mem_cons_self ..),
+        ih n.hi hhi (by omega) σ σ' (fun x hx => hag x (List.mem_cons_of_mem _ (List.mem_append_right _ hx))),
+        ih n.lo hlo (by omega) σ σ' (fun x hx => hag x (List.mem_cons_of_mem _ (List.mem_append_left _ hx)))]
+
 #print axioms counts_total_fuel
 #print axioms cmodels_ratio
